@@ -182,7 +182,7 @@ theorem relation_record_roundtrip (c : Ctx) (hc : CtxOK c) (fs : List Feature) (
                 let role ← c.strs[y.role.toNat]?
                 let mid ← unRef c.nt y.id
                 pure (⟨role, mid⟩ : FMember))) g.members ms (fun m hm y hy => (hFspec m hm y hy).2) hmem
-          have hrt := rt_relationWith (tnPath (blockHeader c 3 n)) (blockHeader c 3 n) ⟨ts, ms, rels⟩ hok hcanon htype []
+          have hrt := rt_relationWith (tnPath (blockHeader c 3 n)) (blockHeader c 3 n) ⟨ts, ms, rels⟩ hok hcanon []
           simp only [List.append_nil] at hrt
           unfold decodeFeature
           simp only [hid, Relation.dec, memberPrimary_path, hrt, Option.bind_eq_bind, Option.bind_some]
